@@ -36,7 +36,7 @@ theorem popLoop_spec {g : Graph} {results : List Key} (P : Params α) {den : Key
       Inv g results s' ∧
       args'.map (·.1) = s.ready.take n ∧ (∀ p ∈ args', p.2 = den p.1) ∧
       preKeys log' = s.ready.take n ∧ postKeys log' = [] ∧
-      (∀ e ∈ log', ∃ k, e.1 = Ev.pretask k) ∧
+      (∀ e ∈ log', ∃ k, e.1 = Ev.pretask k ∧ ∀ d ∈ e.2.depsOf k, e.2.cache.get? d = some (den d)) ∧
       s'.ready = s.ready.drop n ∧ (∀ j, j ∈ s'.running ↔ j ∈ s.running ∨ j ∈ s.ready.take n) ∧
       s'.cache = s.cache ∧ s'.finished = s.finished ∧ s'.released = s.released ∧ s'.waiting = s.waiting ∧
       s'.dependencies = s.dependencies ∧ s'.dependents = s.dependents ∧ s'.waitingData = s.waitingData := by
@@ -60,12 +60,14 @@ theorem popLoop_spec {g : Graph} {results : List Key} (P : Params α) {den : Key
         simp [nodeDeps, hg] at this
         exact this
       subst hdd
+      have hdc : ∀ d ∈ deps, s.cache.get? d = some (den d) := by
+        intro d hd
+        obtain ⟨v, hv⟩ := h.dep_cached (Or.inl hkr) (by rw [depsOf_of_get hdeps]; exact hd : d ∈ s.depsOf key)
+        rw [hv, hcs d v hv]
       have hvals : deps.mapM (fun d => (popState s key ready).cache.get? d) = some (deps.map den) := by
         apply mapM_option_eq_some
         intro d hd
-        obtain ⟨v, hv⟩ := h.dep_cached (Or.inl hkr) (by rw [depsOf_of_get hdeps]; exact hd : d ∈ s.depsOf key)
-        show s.cache.get? d = some (den d)
-        rw [hv, hcs d v hv]
+        exact hdc d hd
       have hinv1 : Inv g results (popState s key ready) := h.pop hr
       have hcs1 : CacheSound den (popState s key ready) := hcs
       have hn1 : n ≤ (popState s key ready).ready.length := by
@@ -98,7 +100,11 @@ theorem popLoop_spec {g : Graph} {results : List Key} (P : Params α) {den : Key
         exact hpost
       · intro e he
         rcases List.mem_cons.mp he with rfl | he
-        · exact ⟨key, rfl⟩
+        · refine ⟨key, rfl, ?_⟩
+          intro d hd
+          have : (popState s key ready).depsOf key = deps := depsOf_of_get hdeps
+          rw [this] at hd
+          exact hdc d hd
         · exact hev e he
       · simpa [popState] using hready
       · intro j
